@@ -35,6 +35,7 @@ type Case struct {
 	Depth  int      `json:"depth"`             // 0 = no depth limit given
 	Nodes  int      `json:"nodes"`             // -1 = none (hard budget = abort point)
 	Soft   int      `json:"soft"`              // soft node limit, 0 = none
+	SoftMs int      `json:"soft_ms,omitempty"` // soft time limit in milliseconds, 0 = none (wall clock: only the invariants are judged)
 	Stop   string   `json:"stop,omitempty"`    // "", "before", "info:<j>" (closed from inside the j-th info line), "timer:<us>"
 	Warm   []Case   `json:"warm,omitempty"`    // searches run before on the same engine (tables carry over)
 	SweepK int      `json:"sweep_k,omitempty"` // abort sweep: the request is repeated with every hard node budget 0..SweepK
@@ -249,6 +250,9 @@ func run1(c Case, s *search.Search, rec *evid.Rec) error {
 	if c.Soft > 0 {
 		opts = append(opts, search.WithSoftNodes(c.Soft))
 	}
+	if c.SoftMs > 0 {
+		opts = append(opts, search.WithSoftTime(int64(c.SoftMs)))
+	}
 	quiet := c.TT < 32*1024
 	stopped := false
 	var phCh chan time.Time
@@ -348,6 +352,9 @@ func run1(c Case, s *search.Search, rec *evid.Rec) error {
 		}
 		if c.Stop != "" {
 			rec.Class("stop_" + strings.SplitN(c.Stop, ":", 2)[0])
+		}
+		if c.SoftMs > 0 {
+			rec.Class("soft_time_limit")
 		}
 		if len(c.Warm) > 0 {
 			rec.Class("warmed_tables")
@@ -634,6 +641,12 @@ func drawLimits(t *rapid.T, c *Case) {
 		c.Depth = gen.Draw(t, 1, 6, "depth")
 		c.Nodes = gen.Draw(t, 0, 20000, "nodes")
 		c.Soft = gen.Draw(t, 0, 3000, "soft")
+	}
+	if gen.Chance(t, 1, 8, "softTime") {
+		c.SoftMs = gen.Draw(t, 1, 4, "softMs")
+		if c.Nodes < 0 {
+			c.Nodes = 30000
+		}
 	}
 	switch gen.Draw(t, 0, 9, "stop") {
 	case 0:
